@@ -84,6 +84,7 @@ type spObs struct {
 type spTrace struct {
 	Mat   int             `json:"mat"`
 	NBase int             `json:"nbase"`
+	MaxSends int          `json:"maxsends"`
 	Steps []spStep        `json:"steps"`
 	Pre   json.RawMessage `json:"pre"`
 	Exp   json.RawMessage `json:"exp"`
@@ -121,6 +122,8 @@ type spWorld struct {
 	coinOf   map[wire.OutPoint]int
 	sendTx   map[int]*wire.MsgTx // send number -> created tx
 	sendAcct map[int]int
+	maxSends int                 // from the length of the model's coin vector: nbase + 2 * maxSends
+	selfScr  map[int][]byte      // send number -> script of its payment to the wallet itself
 	lastErr  error // result of the last SendOutputs / SendOutputsWithInput call
 	called   bool
 	foreign  []byte
@@ -161,8 +164,12 @@ func replaySpend(idx int, line []byte, prop string, seed int, root string, rep *
 		return
 	}
 	defer e.close()
-	w := &spWorld{e: e, prop: prop, nbase: tr.NBase, txOf: map[int]*wire.MsgTx{}, opOf: map[int]wire.OutPoint{},
-		outOf: map[int]*wire.TxOut{}, coinOf: map[wire.OutPoint]int{}, sendTx: map[int]*wire.MsgTx{}, sendAcct: map[int]int{},
+	if tr.MaxSends == 0 {
+		rep.AddError("trace %d: the behaviour does not say how many created transactions the model allows", idx)
+		return
+	}
+	w := &spWorld{e: e, prop: prop, nbase: tr.NBase, maxSends: tr.MaxSends, txOf: map[int]*wire.MsgTx{}, opOf: map[int]wire.OutPoint{},
+		outOf: map[int]*wire.TxOut{}, coinOf: map[wire.OutPoint]int{}, sendTx: map[int]*wire.MsgTx{}, sendAcct: map[int]int{}, selfScr: map[int][]byte{},
 		tagSeed: fmt.Sprintf("sp-%d-%d", idx, seed)}
 	report := func(step int, d [4]interface{}) {
 		last := "init"
@@ -468,11 +475,28 @@ func (w *spWorld) recordSend(n int, tx *wire.MsgTx) {
 	w.e.chain.Track(h)
 	for i, out := range tx.TxOut {
 		if string(out.PkScript) != string(w.foreign) {
-			c := w.nbase + n
+			c := w.nbase + n // change
+			if scr, ok := w.selfScr[n]; ok && string(out.PkScript) == string(scr) {
+				c = w.nbase + w.maxSends + n // the payment to the wallet itself
+			}
 			op := wire.OutPoint{Hash: h, Index: uint32(i)}
 			w.opOf[c], w.outOf[c], w.coinOf[op] = op, out, c
 		}
 	}
+}
+
+// isChangeCoin: created by a send and not its self-payment.
+func (w *spWorld) isChangeCoin(c int) bool { return c > w.nbase && c <= w.nbase+w.maxSends }
+
+// sendOfCoin returns the number of the send that created coin c (0 for base coins).
+func (w *spWorld) sendOfCoin(c int) int {
+	switch {
+	case c <= w.nbase:
+		return 0
+	case c <= w.nbase+w.maxSends:
+		return c - w.nbase
+	}
+	return c - w.nbase - w.maxSends
 }
 
 func (w *spWorld) checkCreated(what string, tx *wire.MsgTx, amount int64, wantIns []int, exact bool, elig []int, a *spArgs) {
@@ -658,6 +682,39 @@ func (w *spWorld) apply(st *spStep, a *spArgs, rep *common.Report) error {
 			w.sendAcct[a.N] = a.Acct
 			w.recordSend(a.N, tx)
 		}
+	case "SendSelf":
+		scope := scopeOf[a.Scope]
+		what := fmt.Sprintf("SendOutputs paying a foreign party and the wallet itself (acct %d, %s, minconf %d)", a.Acct, a.Scope, a.Mc)
+		own, err := e.w.NewAddress(0, waddrmgr.KeyScopeBIP0084)
+		if err != nil {
+			return fmt.Errorf("NewAddress: %w", err)
+		}
+		ownScr, _ := txscript.PayToAddrScript(own)
+		const selfAmt = 300_000
+		amount := w.sumVal(a.Ins) - margin(a.N) - selfAmt
+		w.selfScr[a.N] = ownScr
+		outs := []*wire.TxOut{wire.NewTxOut(amount, w.foreign), wire.NewTxOut(selfAmt, ownScr)}
+		tx, err := e.w.SendOutputs(outs, &scope, uint32(a.Acct), int32(a.Mc), 1000, wallet.CoinSelectionLargest, "verif-label")
+		w.lastErr, w.called = err, true
+		w.n++
+		if err != nil {
+			delete(w.selfScr, a.N)
+			w.add("eligibility", what+" result", err.Error(), "ok")
+			return nil
+		}
+		var ops []wire.OutPoint
+		for _, in := range tx.TxIn {
+			ops = append(ops, in.PreviousOutPoint)
+		}
+		if got := w.coinIDs(ops); fmt.Sprint(got) != fmt.Sprint(sorted(a.Ins)) {
+			w.add("inputs", what+": selected inputs", got, sorted(a.Ins))
+		}
+		w.n++
+		if err := w.verifySigs(tx); err != nil {
+			w.add("sig", what+": signature does not verify under the standard script flags", err.Error(), "valid")
+		}
+		w.sendAcct[a.N] = a.Acct
+		w.recordSend(a.N, tx)
 	case "SendDup":
 		// the same eligible output listed twice, for an amount one use cannot pay: any refusal is fine,
 		// a transaction that spends the output twice is not
@@ -1182,7 +1239,7 @@ func (w *spWorld) observeHistory(exp *spObs) {
 			if !ok {
 				continue
 			}
-			outs = append(outs, fmt.Sprintf("out%d:acct%d:internal=%v", i, w.acctOf(c, exp), c > w.nbase))
+			outs = append(outs, fmt.Sprintf("out%d:acct%d:internal=%v", i, w.acctOf(c, exp), w.isChangeCoin(c)))
 		}
 		sort.Strings(ins)
 		sort.Strings(outs)
@@ -1248,12 +1305,29 @@ func (w *spWorld) observeHistory(exp *spObs) {
 		return
 	}
 	names := map[string]bool{}
+	recv := map[string]int{} // "txid:vout" -> number of receive-type entries
 	for _, r := range lst {
 		names[r.TxID] = true
+		switch r.Category {
+		case "receive", "generate", "immature":
+			recv[fmt.Sprintf("%s:%d", r.TxID, r.Vout)]++
+		}
 	}
 	for h, k := range known {
 		if !names[h.String()] {
 			w.add("history", "ListAllTransactions: "+k.name, "missing", "listed")
+			continue
+		}
+		// every wallet credit that is not change has exactly one receive-type entry
+		for i := range k.tx.TxOut {
+			c, ok := w.coinOf[wire.OutPoint{Hash: h, Index: uint32(i)}]
+			if !ok || w.isChangeCoin(c) {
+				continue
+			}
+			w.n++
+			if n := recv[fmt.Sprintf("%s:%d", h, i)]; n != 1 {
+				w.add("history", fmt.Sprintf("ListAllTransactions: receive entries for output %d (coin %d) of %s", i, c, k.name), n, 1)
+			}
 		}
 	}
 }
@@ -1262,6 +1336,9 @@ func (w *spWorld) observeHistory(exp *spObs) {
 func (w *spWorld) acctOf(c int, exp *spObs) int {
 	if c <= w.nbase {
 		return int(baseAttrs[c].acct)
+	}
+	if !w.isChangeCoin(c) {
+		return 0 // self-payments go to account 0
 	}
 	return w.sendAcct[c-w.nbase]
 }
